@@ -2,15 +2,14 @@ SPECIFICATION Spec
 CONSTANTS
   Vers = {"sasl", "sasl2"}
   Mechs = {"PLAIN", "DIGEST-MD5", "ANONYMOUS", "X-UNKNOWN"}
-  Creds = {"right", "wrongPw", "otherUser", "malformed", "empty"}
-  BindRes = {"ra", "rv"}
+  Creds = {"right", "otherUser", "empty"}
+  BindRes = {"ra"}
   Kinds = {"message", "presence", "iq"}
   Froms = {"absent", "own", "ownBare", "victim", "other"}
   Tos = {"victimBare", "victimFull", "domain", "absent"}
-  Stanzas <- AllStanzas
-  MaxPending = 2
+  Stanzas <- CoreStanzas
+  MaxPending = 1
   MaxHist = 99
-INVARIANTS TypeOK BindOnlyAuthed AuthedOnlyApproved ApprovedSound NeverTheVictim RoutesOwn
-PROPERTIES IdentityByApproval AnswersOnlyAuthed RoutedStamped
 VIEW View
+ACTION_CONSTRAINT EmitBehaviour
 CHECK_DEADLOCK FALSE
